@@ -14,7 +14,9 @@ var SemanticEdits = []string{"rename-call", "change-literal", "add-stage-in", "a
 	// declared type of an output nothing refers to (the program keeps compiling)
 	"retype-out-array", "retype-out-map", "retype-out-base", "retype-out-mapelem-array", "retype-out-dim2",
 	// declared type of a pipeline input whose every use is a pass-through to a same-typed retyped chain is not attempted
-	"rename-param-out"}
+	"rename-param-out",
+	// shape of a collection literal (at any depth of a literal binding)
+	"literal-array-drop-last", "literal-array-append", "literal-map-drop-key", "literal-map-add-key"}
 
 // UnspecifiedEdits: whether they change the meaning is not decided by the
 // statement of C15 (calling a different stage with an identical signature
@@ -35,6 +37,62 @@ func walkExps(e *Exp, f func(*Exp)) {
 		walkExps(x, f)
 	}
 	walkExps(e.Sub, f)
+}
+
+// mutateCollection changes the shape of the hit-th applicable collection node
+// inside v (pre-order): drop / duplicate the last array element, drop the
+// last key / add a key (copy of the last value) of an object.
+func mutateCollection(v *Val, kind string, hit func() bool) bool {
+	if v == nil {
+		return false
+	}
+	switch v.K {
+	case VArr:
+		if len(v.A) > 0 {
+			switch kind {
+			case "literal-array-drop-last":
+				if hit() {
+					v.A = v.A[:len(v.A)-1]
+					return true
+				}
+			case "literal-array-append":
+				if hit() {
+					v.A = append(v.A, v.A[len(v.A)-1].Clone())
+					return true
+				}
+			}
+		}
+		for _, e := range v.A {
+			if mutateCollection(e, kind, hit) {
+				return true
+			}
+		}
+	case VObj:
+		keys := v.Keys()
+		if len(keys) > 0 {
+			switch kind {
+			case "literal-map-drop-key":
+				// only for typed maps: a struct literal must keep its fields;
+				// the caller cannot tell, so compile failures of the edited
+				// program are skipped by the check
+				if hit() {
+					delete(v.O, keys[len(keys)-1])
+					return true
+				}
+			case "literal-map-add-key":
+				if hit() {
+					v.O["verif_added_key"] = v.O[keys[len(keys)-1]].Clone()
+					return true
+				}
+			}
+		}
+		for _, k := range keys {
+			if mutateCollection(v.O[k], kind, hit) {
+				return true
+			}
+		}
+	}
+	return false
 }
 
 func bumpLiteral(v *Val) bool {
@@ -130,6 +188,35 @@ func ApplyEdit(p *Program, kind string, site int) bool {
 				if done {
 					return true
 				}
+			}
+		}
+	case "literal-array-drop-last", "literal-array-append", "literal-map-drop-key", "literal-map-add-key":
+		apply := func(e *Exp) bool {
+			done := false
+			walkExps(e, func(x *Exp) {
+				if !done && x.K == ELit && x.Lit != nil {
+					done = mutateCollection(x.Lit, kind, hit)
+				}
+			})
+			return done
+		}
+		for _, pl := range p.Pipelines {
+			for _, c := range pl.Calls {
+				for _, b := range c.Binds {
+					if apply(b.E) {
+						return true
+					}
+				}
+			}
+			for _, r := range pl.Ret {
+				if apply(r.E) {
+					return true
+				}
+			}
+		}
+		for _, b := range p.Top.Binds {
+			if apply(b.E) {
+				return true
 			}
 		}
 	case "change-top-arg":
